@@ -41,7 +41,7 @@ Definition to_anyuint (k n : Z) : anyuint :=
 Fixpoint dec_ty (t : ty) : decoder val :=
   match t with
   | TyU64 => fun bs => dmapv (VNum 0) (dec_u64 bs)
-  | TyAnyUInt => fun bs => dmapv of_anyuint (dec_anyuint_before_fix bs)
+  | TyAnyUInt => fun bs => dmapv of_anyuint (dec_anyuint bs)
   | TyAnyCbor => fun bs => dmapv VBytes (dec_anycbor bs)
   | TyBytes => fun bs => dmapv VBytes (dec_bytes bs)
   | TyInt => fun bs => dmapv (VNum 0) (dec_cint bs)
